@@ -140,7 +140,18 @@ func c14Generate(schemaFile string) c14GenResult {
 	o1, o2 := filepath.Join(work, "out1"), filepath.Join(work, "out2")
 	_ = os.MkdirAll(o1, 0o755)
 	_ = os.MkdirAll(o2, 0o755)
-	for _, o := range []string{o1, o2} {
+	for i, o := range []string{o1, o2} {
+		if i == 1 {
+			// the second generation goes where `go generate` puts it: into a directory that already holds
+			// generated files — here those of the first run followed by the tail of a longer, older
+			// generation. The result must not depend on what was there before.
+			for _, n := range c14GenFiles {
+				if b, err := os.ReadFile(filepath.Join(o1, n)); err == nil {
+					stale := append(b, []byte(strings.Repeat("\n// stale line of an earlier, longer generation\nfunc (", 40))...)
+					_ = os.WriteFile(filepath.Join(o2, n), stale, 0o644)
+				}
+			}
+		}
 		out, err := c14Run(work, c14Tlgen, schemaFile, o)
 		if err != nil {
 			c14Note("tlgen_run_error", out)
